@@ -391,6 +391,13 @@ def discharge_maypanic(A, bb, path, args, t):
             # u32 -> usize on a 64-bit target
             if "TryFrom<u32>" in str(a0[1]) and "usize" in str(a0[1]):
                 return "u32 -> usize is infallible on a 64-bit target"
+            # a narrowing conversion of a value the facts bound by the target type's maximum
+            tgt = str(a0[1])
+            for ty in ("u8", "u16", "u32"):
+                if inner is not None and (("for %s>" % ty) in tgt) and "TryFrom<usize>" in tgt or (inner is not None and ("for %s>" % ty) in tgt and "TryFrom<u64>" in tgt):
+                    j_ = G.entails(A.g.facts_at(bb), ("cmp", "Le", a0[2][0], ("c", type_max(ty))))
+                    if j_ is not None:
+                        return "the converted value is at most %s::MAX by the facts at the site" % ty
         if a0 and a0[0] == "call" and "core::array::<impl core::convert::TryFrom<&[u8]> for [u8; " in str(a0[1]):
             n = int(str(a0[1]).split("for [u8; ")[1].split("]")[0])
             src = G.N(a0[2][0])
